@@ -161,13 +161,24 @@ def norm(A, p):
             a = simp(A, i['a']); b = simp(A, i['b'])
             d = decide_ge(A, a, b)
             if d is True:
-                return out + norm(A, i['then'])
+                return fuse(out + norm(A, i['then']))
             if d is False:
-                return out + norm(A, i['else'])
-            return out + [{'op': 'if', 'a': a, 'b': b, 'then': norm(A, i['then']), 'else': norm(A, i['else'])}]
+                return fuse(out + norm(A, i['else']))
+            return fuse(out) + [{'op': 'if', 'a': a, 'b': b, 'then': norm(A, i['then']), 'else': norm(A, i['else'])}]
         j = map_instr(lambda e: simp(A, e), i)
         if not is_identity(j):
             out.append(j)
+    return fuse(out)
+
+def fuse(p):
+    """rule `fuse` of DSL.v: a third population created by admixture DIRECTLY after the first split (phi_1D_to_2D: density on the
+    diagonal) is the split of population 2 whatever the proportion.  Applied to a normalised straight-line prefix (the Coq
+    normaliser applies it bottom-up at every Step; a rewritten instruction never enables another rewrite, so the result is the same)"""
+    out = list(p)
+    for k in range(len(out) - 1):
+        a, b = out[k], out[k + 1]
+        if a['op'] == 'split' and a['d'] == 1 and a['parent'] == 0 and b['op'] == 'admixnew' and b['d'] == 2 and len(b['fs']) == 1:
+            out[k + 1] = {'op': 'split', 'd': 2, 'parent': 1}
     return out
 
 def instr_eq(i, j):
